@@ -13,8 +13,6 @@ RULES = {
     'C09.R2': 'find_terminal pushes the label it follows and returns the node it reached; PolyhedraGen::next builds the predicate from the parent edge of the node it reports',
 }
 WRAPPERS = {
-    '<PolyhedraIter as Iterator>::next': ('Option::map(PolyhedraGen::next(self.iter, self.tree), closure {closure#0}[])', ['tuple(_2.0.depth, _2.0.index, _2.0.n_remaining, _2.1)'],
-                                          'item = (depth, index, n_remaining, path polytopes) of the generator\'s item over the same tree'),
     'PolyhedraIter::new': ('PolyhedraIter::PolyhedraIter{PolyhedraGen::new(tree), tree}', [], 'generator from the root of the tree it is later stepped with'),
     'PolyhedraIter::skip_subtree': ('PolyhedraGen::skip_subtree(self.iter)', [], 'skips in the wrapped generator'),
     'PolyhedraGen::new': ('PolyhedraGen::with_root(tree, Tree::get_root_idx(tree))', [], 'starts at the root'),
@@ -149,8 +147,58 @@ def sign_table(b, R, mul_bb):
     return table, label_expr, l
 
 
+def polyhedra_iter_next(ctx):
+    """PolyhedraIter::next re-packs the generator's item (data, polytopes) as (data.depth, data.index, data.n_remaining, polytopes): the
+    components keep their meaning and order, every item of the generator over the same tree is passed on, nothing else is produced."""
+    b = ctx.body('C09.R2', '<PolyhedraIter as Iterator>::next')
+    if b is None:
+        return
+    site = '<PolyhedraIter_as_Iterator>::next#repack'
+    R = Resolver(b)
+    X = ('call', 'PolyhedraGen::next', (('field', ('param', 'self'), 'iter'), ('field', ('param', 'self'), 'tree')))
+    DATA = ('field', X, '0')
+    want = (('field', DATA, 'depth'), ('field', DATA, 'index'), ('field', DATA, 'n_remaining'), ('field', X, '1'))
+    EXTRACT = {'0': 'depth', '1': 'index', '2': 'n_remaining'}
+
+    def norm(e):
+        if not isinstance(e, tuple) or not e:
+            return e
+        if e[0] == 'closure':
+            return e
+        e = tuple(norm(x) for x in e)
+        # DfsNodeData::extract(d).k = the k-th of (depth, index, n_remaining) (its own body is checked in the wrapper table)
+        if e[0] == 'field' and e[2] in EXTRACT and is_call(e[1], 'DfsNodeData::extract'):
+            return ('field', e[1][2][0], EXTRACT[e[2]])
+        while is_call(e, 'Clone::clone', 'ToOwned::to_owned', 'Vec::clone') and e[2]:
+            e = e[2][0]
+        return e
+    tuples = []
+    others = []
+    for _, e in R.return_expr():
+        e = norm(s(prune.beta_option_map(ctx.facts, e)))
+        alts = e[1] if e[0] == 'phi' and len(e) == 2 else (e[2] if e[0] == 'phi' else (e,))
+        for a in alts:
+            if is_call(a, 'FromResidual::from_residual') and any(x == X for x in walk(a)):
+                continue   # `?` on the generator's None
+            if a[0] == 'agg' and isinstance(a[1], tuple) and a[1][1] == 'Option' and a[1][2] == 'Some':
+                a = a[2][0]
+            if a[0] == 'agg' and a[1] == 'tuple':
+                tuples.append(a[2])
+            elif a[0] == 'agg' and isinstance(a[1], tuple) and a[1][2] == 'None':
+                others.append('None')
+            else:
+                others.append(fmt(a)[:80])
+    lits_none = [o for o in others if o != 'None']
+    if len(tuples) == 1 and tuples[0] == want and not lits_none:
+        ctx.ok('C09.R2', site, 'item = (depth, index, n_remaining, path polytopes) of the generator\'s item over the same tree, every item passed on', b.span)
+    else:
+        ctx.bad('C09.R2', site, 'the reported tuple is not (data.depth, data.index, data.n_remaining, polytopes) of the generator\'s item: %s %s' %
+                ([fmt(('agg', 'tuple', t))[:160] for t in tuples], lits_none), b.span)
+
+
 def run(ctx):
     prune.check_wrappers(ctx, 'C09.R2', WRAPPERS)
+    polyhedra_iter_next(ctx)
     F = ctx.facts
     # ---------------- evaluator
     b = ctx.body('C09.R1', 'AffTree::evaluate_decision')
